@@ -5,7 +5,7 @@ CONSTANTS NMax = 35
  DetMax = 8
  Draws = 4
  PosPer = 2
- Extra = 6000
+ Extra = 4000
  PredExtra = 3000
  IseqExtra = 600
 INVARIANT ExactPre
